@@ -195,14 +195,47 @@ func runLease(e *exec) {
 	w := e.w
 	l := &leaseRun{exec: e}
 	everAcked := map[binding]bool{}
+	lastGood := map[binding]bool{} // bindings in the file after the last save that succeeded
 	l.d = runDHCPCore(e, func(d *dhcpRun, ri *reqInfo, y netip.Addr) {
 		everAcked[binding{cid: ri.cid, mac: string(ri.mac[:]), ip: y}] = true
 		// C18: the binding just acknowledged, and every binding still held, is in the saved file
 		data, ok := readLeaseFile()
-		if !ok {
+		if d.lastSaveFailed() {
+			// The save after this ACK met the injected disk error: the new binding may be missing,
+			// but the save must not have damaged what an earlier, successful save had made durable.
+			now := map[binding]bool{}
+			if ok {
+				now, _ = bindingsOf(data)
+			}
+			var held []netip.Addr
+			for ip := range d.hold {
+				held = append(held, ip)
+			}
+			sort.Slice(held, func(i, j int) bool { return held[i].Compare(held[j]) < 0 })
+			for _, ip := range held {
+				h := d.hold[ip]
+				if d.now() >= h.until {
+					continue
+				}
+				was, is := false, false
+				for b := range lastGood {
+					if b.cid == h.cid && b.ip == ip {
+						was = true
+					}
+				}
+				for b := range now {
+					if b.cid == h.cid && b.ip == ip {
+						is = true
+					}
+				}
+				if was && !is {
+					l.violateSoft("C18.save", "failed-save-lost-a-binding-that-was-durable", fmt.Sprintf("the save after ACK of %s failed (injected disk error), and binding (%x, %s), present in the file after the previous successful save and still held, is gone from it: %q", y, h.cid, ip, firstBytes(data, 300)))
+				}
+			}
+			e.probe("failed_save_checked")
 			return
 		}
-		if d.lastSaveFailed() {
+		if !ok {
 			return
 		}
 		saved, ok := bindingsOf(data)
@@ -210,6 +243,7 @@ func runLease(e *exec) {
 			l.violate("C18.save", "saved-file-unreadable", fmt.Sprintf("file saved after ACK does not parse: %q", firstBytes(data, 200)))
 			return
 		}
+		lastGood = saved
 		var held []netip.Addr
 		for ip := range d.hold {
 			held = append(held, ip)
